@@ -29,10 +29,26 @@ Definition eig_ok (tol prec : Q) (P C : Qmat) (e : Q * Qvec) : bool :=
 Definition orthonormal_ok (tol : Q) (n : nat) (vs : list Qvec) : bool :=
   (length vs =? n)%nat && forallb (fun v => (length v =? n)%nat) vs &&
   mat_close tol (qmm vs (qtr vs)) (qid n).
+(* the quadratic form v^T C v = |T^T v|^2 is insensitive to the rounding noise the 1/eps-conditioned solves put into the null
+   direction (that noise is orthogonal to v): it pins the variance along v to eps_var within 1e-11 RELATIVE -- four orders of
+   magnitude below the distance 2 sqrt(eps)/lam ~ 3e-8 between the regularised and the documented variance *)
+Definition rayleigh_ok (prec : Q) (C : Qmat) (e : Q * Qvec) : bool :=
+  let (lam, v) := e in
+  let b := eps_var_q prec sqrt_eps lam * qdot v v in
+  Qle_bool (Qabs (qdot v (qmv C v) - b)) ((1 # 100000000000) * Qabs b + (1 # 10000000000000)).
 Definition check_eps_law (n : nat) (prec : Q) (P T : Qmat) (es : list (Q * Qvec)) : bool :=
   has_shape n n P && (length T =? n)%nat &&
   orthonormal_ok tol9 n (map snd es) &&
-  forallb (eig_ok tol6 prec P (cov_of T)) es.
+  forallb (eig_ok tol6 prec P (cov_of T)) es &&
+  forallb (rayleigh_ok prec (cov_of T)) es.
+(* the same test against the DOCUMENTED variance 1/(prec lam): must fail on the range of P (used by the cells to show that the
+   check tells the two laws apart) *)
+Definition rayleigh_doc_ok (prec : Q) (C : Qmat) (e : Q * Qvec) : bool :=
+  let (lam, v) := e in
+  let b := doc_var_q prec lam * qdot v v in
+  Qle_bool (Qabs (qdot v (qmv C v) - b)) ((1 # 100000000000) * Qabs b + (1 # 10000000000000)).
+Definition check_eps_law_discriminates (prec : Q) (T : Qmat) (es : list (Q * Qvec)) : bool :=
+  forallb (fun e => Qeq_bool (fst e) 0 || negb (rayleigh_doc_ok prec (cov_of T) e)) es.
 
 (* ---------------- (b) ---------------- *)
 Definition triple := (Q * Q * Q)%type.
